@@ -7,9 +7,6 @@
     reduction that `iadd` performs.  Comparisons are the signed ones (`ige_s`, `ile_s`). -/
 namespace GuppyVerif.Range
 
-def two63 : Int := 9223372036854775808
-def two64 : Int := 18446744073709551616
-
 /-- two's complement reduction of an integer into `[-2^63, 2^63)` -/
 def wrap (x : Int) : Int := (x + 9223372036854775808) % 18446744073709551616 - 9223372036854775808
 
